@@ -5,6 +5,42 @@ From Coq Require Import NArith List Arith Bool Lia.
 From Qv Require Import SeqModel SeqLists SeqProofs SeqProofsArray SeqProofsUnits SeqProofsStream SeqProofsString SeqProofsView SeqProofsMem.
 Import ListNotations.
 
+(* Swap: the specification's double splice is the exchange of two positions *)
+Section SwapMeaning.
+Context {T : Type}.
+Lemma splice_middle_g : forall (pre : list T) y post x, splice (pre ++ y :: post) (length pre) [x] = pre ++ x :: post.
+Proof.
+  intros pre y post x. unfold splice. cbn [length].
+  rewrite firstn_app, Nat.sub_diag, firstn_O, app_nil_r, firstn_all.
+  rewrite skipn_app. replace (length pre + 1 - length pre) with 1 by lia.
+  rewrite skipn_all2 by lia. reflexivity.
+Qed.
+Lemma nth_splice1 : forall (c : list T) off x d k, off < length c ->
+  nth k (splice c off [x]) d = if k =? off then x else nth k c d.
+Proof.
+  intros c off x d k Hoff. destruct (nth_split c d Hoff) as (pre & post & Hc & Hpre).
+  remember (nth off c d) as y eqn:Ey. clear Ey. subst c off. rewrite splice_middle_g.
+  destruct (Nat.eqb_spec k (length pre)) as [->|Hne].
+  - apply nth_middle.
+  - destruct (Nat.lt_ge_cases k (length pre)) as [Hlt|Hge].
+    + now rewrite !app_nth1 by assumption.
+    + rewrite !app_nth2 by assumption. destruct (k - length pre) as [|m] eqn:E; [lia|reflexivity].
+Qed.
+Lemma splice1_length : forall (c : list T) off x, off < length c -> length (splice c off [x]) = length c.
+Proof. intros c off x H. apply splice_length. cbn [length]. lia. Qed.
+
+Theorem swap_spec_meaning : forall (l : list T) k1 k2 d, k1 < length l -> k2 < length l ->
+  let l' := splice (splice l k1 [nth k2 l d]) k2 [nth k1 l d] in
+  length l' = length l /\
+  forall k, nth k l' d = if k =? k2 then nth k1 l d else if k =? k1 then nth k2 l d else nth k l d.
+Proof.
+  intros l k1 k2 d H1 H2 l'. subst l'.
+  assert (Hl1 : length (splice l k1 [nth k2 l d]) = length l) by now apply splice1_length.
+  split; [rewrite splice1_length; lia|].
+  intros k. rewrite nth_splice1 by lia. destruct (k =? k2); [reflexivity|]. now rewrite nth_splice1.
+Qed.
+End SwapMeaning.
+
 Section ArrayTop.
 Context {A : Type} (junk d : A).
 
